@@ -334,7 +334,7 @@ class C19:
         from coba.context.cachers import ConcurrentCacher, MemoryCacher, DiskCacher
         _install_gzip_shim()
         kn = cfg["knobs"]
-        sim = make_sim(seed, choices=choices, p_stay=kn["p_stay"], p_clock=kn["p_clock"], max_steps=8000)
+        sim = make_sim(seed, choices=choices, p_stay=kn["p_stay"], p_clock=kn["p_clock"], max_steps=4000)
         sim.user["array_yields"] = kn["array_yields"]
         sim.user["disk_yields"] = kn["disk_yields"]
         sim.user["c19_pending_pop"] = {}
